@@ -29,8 +29,17 @@ Inductive tr_step (s : state) : sres -> Prop :=
 Ltac ts_same := apply TS_same; reflexivity.
 Ltac ts_fin := apply TS_fin; intros ? ?; discriminate.
 
+Lemma end_panic_tr s0 s c : str s = str s0 -> tr_step s0 (end_panic s c).
+Proof. intros Hs. unfold end_panic. destruct (souter s); rewrite Hs; ts_fin. Qed.
+
+Lemma finish_tr' s0 s : str s = str s0 -> tr_step s0 (finish s).
+Proof.
+  intros Hs. unfold finish. destruct (schain s); [|apply end_panic_tr; exact Hs].
+  destruct (souter s); [rewrite Hs; ts_fin|apply TS_same; simpl; exact Hs].
+Qed.
+
 Lemma finish_tr s : tr_step s (finish s).
-Proof. unfold finish. destruct (schain s); ts_fin. Qed.
+Proof. apply finish_tr'. reflexivity. Qed.
 
 Lemma native_in_next_tr s0 nk s k :
   str s = str s0 ->
@@ -76,7 +85,7 @@ Qed.
 Lemma raise_tr s0 s f pc v : str s = str s0 -> tr_step s0 (raise s f pc v).
 Proof.
   intros Hs. unfold raise. destruct (scalls s).
-  - rewrite Hs. ts_fin.
+  - apply end_panic_tr. exact Hs.
   - apply TS_same. simpl. exact Hs.
 Qed.
 
@@ -99,7 +108,7 @@ Proof.
   unfold step_exec.
   destruct (sfn s) as [f|]; [|ts_fin].
   destruct (fetch f (spc s)) as [ins|]; [|ts_fin].
-  destruct ins as [k|b inf|b inf|k|v|down|].
+  destruct ins as [k|b inf|b inf|k|v|down| |b inf].
   - destruct k; cbn [str set_pc].
     + eapply TS_emit with (e := EBody n); [reflexivity|exact I].
     + apply TS_stop.
@@ -111,10 +120,11 @@ Proof.
   - apply raise_tr. reflexivity.
   - apply do_recover_tr. reflexivity.
   - simpl. destruct (length (scalls s)) as [|i] eqn:Hl.
-    + assert (H := finish_tr s). unfold finish in *. simpl. exact H.
+    + apply finish_tr'. reflexivity.
     + destruct (nth_error (scalls s) i) as [call|]; [|ts_fin].
       destruct (status_eqb (fstat call) Started); [|ts_same].
       destruct (fcl call); ts_same.
+  - ts_same.
 Qed.
 
 Lemma step_tr s : tr_step s (step s).
@@ -215,6 +225,34 @@ Proof.
 Qed.
 
 (* ------------------------------------------------------------------ *)
+(* Callbacks: what reaches Run from the VM of a callback                *)
+
+(* env.Stop / env.Fatal called by a native function end the machine at once
+   with the error / the value, whatever the stack of suspended VMs *)
+Lemma callback_stop_fatal_pass_through s f k :
+  smode s = MExec -> sfn s = Some f -> fetch f (spc s) = Some (INat k) ->
+  (forall e, k = NStop e -> exists tr, step s = Fin (OStop e) (EStop e :: tr) /\ tr = str s) /\
+  (forall v, k = NFatal v -> exists tr, step s = Fin (ORunPanics v) (EFatal v :: tr) /\ tr = str s).
+Proof.
+  intros Hm Hf Hfe. unfold step. rewrite Hm. unfold step_exec. rewrite Hf, Hfe.
+  split; intros x ->; eexists; split; reflexivity.
+Qed.
+
+(* the end of the VM of a callback with a pending panic: Run panics with the text of the chain *)
+Lemma callback_panic_is_fatal s p c :
+  souter s <> [] -> schain s = p :: c ->
+  finish s = Fin (OCbPanic (cb_view (p :: c))) (str s).
+Proof.
+  intros Ho Hc. unfold finish, end_panic. rewrite Hc. destruct (souter s); [contradiction|reflexivity].
+Qed.
+
+(* the end of the VM of a callback without a panic: the caller goes on after its native call *)
+Lemma callback_returns_to_caller s sv rest :
+  souter s = sv :: rest -> schain s = [] ->
+  finish s = Next (mkstate MExec (Some (vfn sv)) (vpc sv) (vcalls sv) (vchain sv) (str s) (sraised s) rest).
+Proof. intros Ho Hc. unfold finish. rewrite Hc, Ho. reflexivity. Qed.
+
+(* ------------------------------------------------------------------ *)
 (* The panic chain: order of the next links, the recovered flag        *)
 
 Open Scope N_scope.
@@ -238,22 +276,41 @@ Qed.
 Lemma map_skipn' {A B} (g : A -> B) n : forall l, map g (skipn n l) = skipn n (map g l).
 Proof. induction n; intros l; [reflexivity|]. destruct l; [reflexivity|]. simpl. apply IHn. Qed.
 
-Definition chain_ok (s : state) : Prop := desc (map pser (schain s)) (sraised s).
+Lemma Forall_desc_weaken (l : list saved) b b' :
+  Forall (fun sv => desc (map pser (vchain sv)) b) l -> b <= b' ->
+  Forall (fun sv => desc (map pser (vchain sv)) b') l.
+Proof.
+  intros H Hb. induction H; constructor; [|assumption]. eapply desc_weaken; eassumption.
+Qed.
+
+(* the chain of the running VM and the chains of the VMs suspended in a
+   callback: serial numbers decrease along every chain and are below the counter *)
+Definition chain_ok (s : state) : Prop :=
+  desc (map pser (schain s)) (sraised s) /\
+  Forall (fun sv => desc (map pser (vchain sv)) (sraised s)) (souter s).
 
 (* how one step changes the chain *)
 Inductive ch_step (s : state) : sres -> Prop :=
-| CS_same s' : schain s' = schain s -> sraised s' = sraised s -> ch_step s (Next s')
+| CS_same s' : schain s' = schain s -> sraised s' = sraised s -> souter s' = souter s -> ch_step s (Next s')
 | CS_push s' p :
     schain s' = p :: schain s -> pser p = sraised s -> precovered p = false ->
-    sraised s' = N.succ (sraised s) -> ch_step s (Next s')
+    sraised s' = N.succ (sraised s) -> souter s' = souter s -> ch_step s (Next s')
 | CS_flag s' p ps f down i1 i :
     schain s = p :: ps -> schain s' = mkprec (pmsg p) true (ppos p) (pser p) :: ps ->
-    sraised s' = sraised s ->
+    sraised s' = sraised s -> souter s' = souter s ->
     smode s = MExec -> sfn s = Some f -> fetch f (spc s) = Some (IRecover down) ->
     recover_start (scalls s) down = Some i1 -> recover_search (scalls s) i1 = Some i ->
     scalls s' = mark_recovered (scalls s) i ->
     ch_step s (Next s')
-| CS_trim s' n : schain s' = skipn n (schain s) -> sraised s' = sraised s -> ch_step s (Next s')
+| CS_trim s' n : schain s' = skipn n (schain s) -> sraised s' = sraised s -> souter s' = souter s -> ch_step s (Next s')
+| CS_enter s' sv :
+    (* a native function calls back: a new VM with an empty chain, the chain of the caller is kept *)
+    schain s' = [] -> sraised s' = sraised s -> vchain sv = schain s -> souter s' = sv :: souter s ->
+    ch_step s (Next s')
+| CS_resume s' sv rest :
+    (* the callback returned: the caller goes on with its own chain *)
+    souter s = sv :: rest -> schain s = [] -> schain s' = vchain sv -> sraised s' = sraised s -> souter s' = rest ->
+    ch_step s (Next s')
 | CS_fin o tr :
     (forall c, o = OPanic c ->
        c = chain_view (schain s) \/
@@ -263,16 +320,32 @@ Inductive ch_step (s : state) : sres -> Prop :=
 Ltac cs_same := apply CS_same; reflexivity.
 Ltac cs_fin := apply CS_fin; intros ? ?; discriminate.
 
-Lemma finish_ch s : ch_step s (finish s).
+Lemma end_panic_ch s0 s c :
+  (c = schain s0 \/ exists p, pser p = sraised s0 /\ precovered p = false /\ c = p :: schain s0) ->
+  ch_step s0 (end_panic s c).
 Proof.
-  unfold finish. destruct (schain s) eqn:Hc; [cs_fin|].
-  apply CS_fin. intros c Ho. inversion Ho. left. rewrite Hc. reflexivity.
+  intros Hc. unfold end_panic. destruct (souter s); [|cs_fin].
+  apply CS_fin. intros c' Ho. inversion Ho. destruct Hc as [->|[p [H1 [H2 ->]]]].
+  - left. reflexivity.
+  - right. exists p. auto.
 Qed.
 
-Lemma after_switch_ch s0 s call i :
-  schain s = schain s0 -> sraised s = sraised s0 -> ch_step s0 (after_switch s call i).
+Lemma finish_ch' s0 s :
+  schain s = schain s0 -> sraised s = sraised s0 -> souter s = souter s0 -> ch_step s0 (finish s).
 Proof.
-  intros Hc Hr. unfold after_switch. destruct (fcl call) as [f|nk].
+  intros Hc Hr Ho. unfold finish. destruct (schain s) as [|p c] eqn:Hcs.
+  - destruct (souter s) as [|sv rest] eqn:Hos; [cs_fin|].
+    eapply CS_resume with (sv := sv) (rest := rest); simpl; try reflexivity; congruence.
+  - apply end_panic_ch. left. congruence.
+Qed.
+
+Lemma finish_ch s : ch_step s (finish s).
+Proof. apply finish_ch'; reflexivity. Qed.
+
+Lemma after_switch_ch s0 s call i :
+  schain s = schain s0 -> sraised s = sraised s0 -> souter s = souter s0 -> ch_step s0 (after_switch s call i).
+Proof.
+  intros Hc Hr Ho. unfold after_switch. destruct (fcl call) as [f|nk].
   - apply CS_same; simpl; assumption.
   - destruct nk; simpl; try cs_fin.
     + apply CS_same; simpl; assumption.
@@ -298,13 +371,13 @@ Proof.
 Qed.
 
 Lemma raise_ch s0 s f pc v :
-  schain s = schain s0 -> sraised s = sraised s0 -> ch_step s0 (raise s f pc v).
+  schain s = schain s0 -> sraised s = sraised s0 -> souter s = souter s0 -> ch_step s0 (raise s f pc v).
 Proof.
-  intros Hc Hr. unfold raise. destruct (scalls s).
-  - apply CS_fin. intros c Ho. inversion Ho. right.
+  intros Hc Hr Ho. unfold raise. destruct (scalls s).
+  - apply end_panic_ch. right.
     eexists (mkprec v false _ (sraised s)). simpl. split; [exact Hr|]. split; [reflexivity|].
     rewrite Hc. reflexivity.
-  - eapply CS_push; simpl; [rewrite Hc; reflexivity|exact Hr|reflexivity|rewrite Hr; reflexivity].
+  - eapply CS_push; simpl; [rewrite Hc; reflexivity|exact Hr|reflexivity|rewrite Hr; reflexivity|exact Ho].
 Qed.
 
 Lemma step_exec_ch s : smode s = MExec -> ch_step s (step_exec s).
@@ -312,7 +385,7 @@ Proof.
   intros Hmode. unfold step_exec.
   destruct (sfn s) as [f|] eqn:Hf; [|cs_fin].
   destruct (fetch f (spc s)) as [ins|] eqn:Hfe; [|cs_fin].
-  destruct ins as [k|b inf|b inf|k|v|down|].
+  destruct ins as [k|b inf|b inf|k|v|down| |b inf].
   - destruct k; try cs_fin; try cs_same. apply raise_ch; reflexivity.
   - cs_same.
   - cs_same.
@@ -326,12 +399,14 @@ Proof.
       * unfold emit_rec. destruct down; reflexivity.
       * unfold emit_rec. destruct down; reflexivity.
       * unfold emit_rec. destruct down; reflexivity.
+      * unfold emit_rec. destruct down; reflexivity.
     + unfold emit_rec. destruct down; cs_same.
   - simpl. destruct (length (scalls s)) as [|i].
-    + assert (H := finish_ch s). unfold finish in *. simpl. exact H.
+    + apply finish_ch'; reflexivity.
     + destruct (nth_error (scalls s) i) as [call|]; [|cs_fin].
       destruct (status_eqb (fstat call) Started); [|cs_same].
       destruct (fcl call); cs_same.
+  - eapply CS_enter with (sv := mksaved f (S (spc s)) (scalls s) (schain s)); reflexivity.
 Qed.
 
 Lemma step_ch s : ch_step s (step s).
@@ -344,12 +419,16 @@ Qed.
 
 Lemma step_chain_ok s s' : step s = Next s' -> chain_ok s -> chain_ok s'.
 Proof.
-  intros Hs Hok. assert (H := step_ch s). rewrite Hs in H. unfold chain_ok in *.
-  inversion H; subst.
-  - rewrite H1, H2. exact Hok.
-  - rewrite H1, H4. simpl. rewrite H2. split; [lia|exact Hok].
-  - rewrite H2, H3. rewrite H1 in Hok. exact Hok.
-  - rewrite H1, H2. rewrite map_skipn'. apply desc_skipn. exact Hok.
+  intros Hs [Hok Hout]. assert (H := step_ch s). rewrite Hs in H. unfold chain_ok in *.
+  inversion H as [s1 Hc Hr Ho | s1 p Hc Hp Hrec Hr Ho | s1 p ps f down i1 i Hc0 Hc Hr Ho Hm Hf Hfe Hs1 Hs2 Hcalls
+                 | s1 n Hc Hr Ho | s1 sv Hc Hr Hv Ho | s1 sv rest Ho0 Hc0 Hc Hr Ho | o tr Hfin].
+  - rewrite Hc, Hr, Ho. split; assumption.
+  - rewrite Hc, Hr, Ho. simpl. rewrite Hp. split; [split; [lia|exact Hok]|].
+    eapply Forall_desc_weaken; [exact Hout|lia].
+  - rewrite Hc, Hr, Ho. rewrite Hc0 in Hok. split; assumption.
+  - rewrite Hc, Hr, Ho. split; [|assumption]. rewrite map_skipn'. apply desc_skipn. exact Hok.
+  - rewrite Hc, Hr, Ho. split; [exact I|]. constructor; [rewrite Hv; exact Hok|exact Hout].
+  - rewrite Hc, Hr, Ho. rewrite Ho0 in Hout. inversion Hout as [|x l Hx Hl]. split; assumption.
 Qed.
 
 Inductive reach : state -> state -> Prop :=
@@ -360,7 +439,7 @@ Lemma reach_chain_ok s s' : reach s s' -> chain_ok s -> chain_ok s'.
 Proof. induction 1; intros Hok; [exact Hok|]. apply IHreach. eapply step_chain_ok; eassumption. Qed.
 
 Lemma init_chain_ok f : chain_ok (init f).
-Proof. exact I. Qed.
+Proof. split; [exact I|constructor]. Qed.
 
 (* the chain Run returns is the view of a chain whose serial numbers of
    raising strictly decrease along the next links *)
@@ -373,6 +452,7 @@ Proof.
   destruct (step s) as [s'|o tr'] eqn:Hs.
   - eapply IHn; [|exact Hr]. eapply step_chain_ok; eassumption.
   - inversion Hr; subst. assert (H := step_ch s). rewrite Hs in H. inversion H; subst.
+    destruct Hok as [Hok _].
     destruct (H1 c eq_refl) as [->|[p [Hp [_ ->]]]].
     + exists (schain s), (sraised s). split; [reflexivity|exact Hok].
     + exists (p :: schain s), (N.succ (sraised s)). split; [reflexivity|].
@@ -399,28 +479,40 @@ Proof.
   - inversion H; subst. split; [lia|]. split; [exists fr; auto|]. intros j Hj. lia.
 Qed.
 
+(* every PanicError the machine holds: the chain of the running VM and the
+   chains of the VMs suspended in a callback *)
+Definition all_chains (s : state) : list prec := schain s ++ flat_map vchain (souter s).
+
 (* a recovered flag that appears in a step was set by OpRecover on the head
    of the chain, and the nearest non-deferred frame was a panicked one *)
 Theorem recovered_only_by_recover s s' p' :
-  step s = Next s' -> In p' (schain s') -> precovered p' = true ->
-  (exists p, In p (schain s) /\ pser p = pser p' /\ precovered p = true) \/
+  step s = Next s' -> In p' (all_chains s') -> precovered p' = true ->
+  (exists p, In p (all_chains s) /\ pser p = pser p' /\ precovered p = true) \/
   (exists f down i1 i ps,
      smode s = MExec /\ sfn s = Some f /\ fetch f (spc s) = Some (IRecover down) /\
      schain s' = p' :: ps /\
      recover_start (scalls s) down = Some i1 /\ recover_search (scalls s) i1 = Some i /\
      scalls s' = mark_recovered (scalls s) i).
 Proof.
-  intros Hs Hin Hrec. assert (H := step_ch s). rewrite Hs in H. inversion H; subst.
-  - left. exists p'. rewrite H1 in Hin. auto.
-  - rewrite H1 in Hin. destruct Hin as [->|Hin].
-    + rewrite H3 in Hrec. discriminate.
-    + left. exists p'. auto.
-  - rewrite H2 in Hin. destruct Hin as [<-|Hin].
+  intros Hs Hin Hrec. assert (H := step_ch s). rewrite Hs in H. unfold all_chains in *.
+  assert (Hold : In p' (schain s ++ flat_map vchain (souter s)) ->
+                 exists p, In p (schain s ++ flat_map vchain (souter s)) /\ pser p = pser p' /\ precovered p = true)
+    by (intros Hi; exists p'; auto).
+  inversion H as [s1 Hc Hr Ho | s1 p Hc Hp Hprec Hr Ho | s1 p ps f down i1 i Hc0 Hc Hr Ho Hm Hf Hfe Hs1 Hs2 Hcalls
+                 | s1 n Hc Hr Ho | s1 sv Hc Hr Hv Ho | s1 sv rest Ho0 Hc0 Hc Hr Ho | o tr Hfin].
+  - left. apply Hold. rewrite Hc, Ho in Hin. exact Hin.
+  - rewrite Hc, Ho in Hin. destruct Hin as [->|Hin].
+    + rewrite Hprec in Hrec. discriminate.
+    + left. apply Hold. exact Hin.
+  - rewrite Hc, Ho in Hin. destruct Hin as [<-|Hin].
     + right. exists f, down, i1, i, ps. repeat split; assumption.
-    + left. exists p'. rewrite H1. split; [right; exact Hin|auto].
-  - left. exists p'. rewrite H1 in Hin. split; [|auto].
+    + left. apply Hold. rewrite Hc0. right. exact Hin.
+  - left. apply Hold. rewrite Hc, Ho in Hin. apply in_app_or in Hin. apply in_or_app.
+    destruct Hin as [Hin|Hin]; [left|right; exact Hin].
     clear - Hin. revert Hin. generalize (schain s). induction n; intros l Hin; [exact Hin|].
     destruct l; [exact Hin|]. right. apply IHn. exact Hin.
+  - left. apply Hold. rewrite Hc, Ho in Hin. simpl in Hin. rewrite Hv in Hin. exact Hin.
+  - left. apply Hold. rewrite Hc, Ho in Hin. rewrite Ho0, Hc0. simpl. exact Hin.
 Qed.
 
 (* ------------------------------------------------------------------ *)
@@ -442,15 +534,20 @@ Theorem panic_position s f ins v :
   smode s = MExec -> sfn s = Some f -> fetch f (spc s) = Some ins -> panics_with ins v ->
   (exists s', step s = Next s' /\
      schain s' = mkprec v false (debug_line f (spc s)) (sraised s) :: schain s) \/
-  (exists tr, step s = Fin (OPanic ((v, false, debug_line f (spc s)) :: chain_view (schain s))) tr).
+  (exists tr, step s = Fin (OPanic ((v, false, debug_line f (spc s)) :: chain_view (schain s))) tr) \/
+  (* in the VM of a callback, with no frame left: Run panics with the text of the chain *)
+  (exists tr, souter s <> [] /\ step s = Fin (OCbPanic ((v, false) :: cb_view (schain s))) tr).
 Proof.
   intros Hm Hf Hfe Hp. unfold step. rewrite Hm. unfold step_exec. rewrite Hf, Hfe.
-  assert (Hr : forall s1, scalls s1 = scalls s -> schain s1 = schain s -> sraised s1 = sraised s ->
+  assert (Hr : forall s1, scalls s1 = scalls s -> schain s1 = schain s -> sraised s1 = sraised s -> souter s1 = souter s ->
      (exists s', raise s1 f (spc s) v = Next s' /\
         schain s' = mkprec v false (debug_line f (spc s)) (sraised s) :: schain s) \/
-     (exists tr, raise s1 f (spc s) v = Fin (OPanic ((v, false, debug_line f (spc s)) :: chain_view (schain s))) tr)).
-  { intros s1 Hc Hch Hra. unfold raise. rewrite Hc, Hch, Hra. destruct (scalls s).
-    - right. eexists. reflexivity.
+     (exists tr, raise s1 f (spc s) v = Fin (OPanic ((v, false, debug_line f (spc s)) :: chain_view (schain s))) tr) \/
+     (exists tr, souter s <> [] /\ raise s1 f (spc s) v = Fin (OCbPanic ((v, false) :: cb_view (schain s))) tr)).
+  { intros s1 Hc Hch Hra Hou. unfold raise, end_panic. rewrite Hc, Hch, Hra, Hou. destruct (scalls s).
+    - destruct (souter s) eqn:Ho.
+      + right. left. eexists. reflexivity.
+      + right. right. eexists. split; [discriminate|reflexivity].
     - left. eexists. split; reflexivity. }
   destruct Hp as [->| ->]; apply Hr; reflexivity.
 Qed.
